@@ -408,9 +408,9 @@ def oracle_c03(case, out):
 
 
 H_SSP = Harness('d_ssp', ['harness/d_simple.cc'], flags=SHIM, includes=SDK_INCLUDES, plain_srcs=['harness/shim/detsched.cc'],
-                sdk_srcs=sdk_sources('common') + ['sdk/src/trace/exporter.cc'])
+                sdk_srcs=sdk_sources('common') + ['sdk/src/trace/exporter.cc', 'sdk/src/trace/simple_processor_factory.cc'])
 H_SLP = Harness('d_slp', ['harness/d_simple.cc'], flags=SHIM + ['-DSIMPLE_LOGS'], includes=SDK_INCLUDES, plain_srcs=['harness/shim/detsched.cc'],
-                sdk_srcs=sdk_sources('common') + ['sdk/src/logs/exporter.cc', 'sdk/src/logs/simple_log_record_processor.cc'])
+                sdk_srcs=sdk_sources('common') + ['sdk/src/logs/exporter.cc', 'sdk/src/logs/simple_log_record_processor.cc', 'sdk/src/logs/simple_log_record_processor_factory.cc'])
 
 
 def model_line(case, out):
@@ -419,7 +419,7 @@ def model_line(case, out):
         return abstract(case.line, out)
     if w in ('ssp', 'slp'):
         cfg, rest = case.line.split(' ; ', 1) if ' ; ' in case.line else (case.line, '')
-        scripts = ' '.join('L' * int(n) if int(n) else '-' for n in cfg.split()[1:])
+        scripts = ' '.join('L' * int(n.rstrip('f')) if int(n.rstrip('f')) else '-' for n in cfg.split()[1:])     # suffix f: built by the factory
         return f'spin {scripts}' + (f' ; {rest}' if rest else '')
     return case.line
 
@@ -469,8 +469,9 @@ def gen_simple(rng, tier):
                 if rng.random() < 0.2:
                     cur = rng.randrange(nt)
                 sched.append(cur)
-        out.append(Case(f'{kind} ' + ' '.join(map(str, counts)) + ' ; ' + ' ; '.join(f't{t}' for t in sched),
-                        'd_ssp' if kind == 'ssp' else 'd_slp', (kind, 'random')))
+        fac = rng.random() < 0.5        # constructor or the factory's Create: the same processor
+        out.append(Case(f'{kind} ' + ' '.join(map(str, counts)).replace(' ', 'f ' if fac else ' ', 1) + ' ; ' + ' ; '.join(f't{t}' for t in sched),
+                        'd_ssp' if kind == 'ssp' else 'd_slp', (kind, 'random', 'ctor-factory' if fac else 'ctor-plain')))
     return out
 
 
